@@ -1,4 +1,4 @@
-//! replay <cases.jsonl> <results.jsonl> [<progress-file>]
+//! replay <cases.jsonl> <results.jsonl> [<progress-file> [<first-case-index>]]
 //!
 //! Executes every case (one JSON object per line, computed by TLC) against the real iref and
 //! writes one line per case that has at least one failed comparison, then a summary line.
@@ -25,12 +25,14 @@ fn main() {
 	let input = BufReader::new(File::open(&args[1]).expect("open cases"));
 	let mut out = BufWriter::new(File::create(&args[2]).expect("create results"));
 	let progress = args.get(3).map(|p| File::create(p).expect("create progress"));
+	// resume after a crash: skip the cases up to and including the one that killed the process
+	let start: usize = args.get(4).and_then(|s| s.parse().ok()).unwrap_or(0);
 	let mut by_kind: BTreeMap<String, (u64, u64, u64)> = BTreeMap::new();
 	let mut total_checks = 0u64;
 	let mut failed_cases = 0u64;
 	for (i, line) in input.lines().enumerate() {
 		let line = line.expect("read line");
-		if line.is_empty() {
+		if line.is_empty() || i < start {
 			continue;
 		}
 		if let Some(p) = &progress {
@@ -57,6 +59,7 @@ fn main() {
 			e.2 += 1;
 			failed_cases += 1;
 			writeln!(out, "{}", json!({"i": i, "k": k, "case": case, "fails": f.list})).unwrap();
+			out.flush().unwrap(); // an abort of the process must not lose what was found so far
 		}
 	}
 	let kinds: BTreeMap<_, _> = by_kind
